@@ -1,9 +1,13 @@
 """
 Translator, part 2: mechanical translation of straight-line integer code from the /repo source into
 Lean definitions over `Int` (Python's unbounded ints).  Supported subset: int constants, names,
-`self._attr` / module-level constants (resolved to their current values), tuple-constant indexing,
-+ - * // % ^ & | unary -, abs(), comparisons (chained), and/or/not, conditional expressions, and
-statement lists made of Assign / AugAssign / If / Return.  Anything else raises Unsupported; the
+`self._attr` / module-level constants (resolved to their current values, or turned into explicit
+parameters of the Lean definition), tuple-constant indexing, + - * // % ^ & | unary -, `<<`/`>>` by a
+constant (`* 2^k`, floor division by `2^k`), abs(), min(), max(), int() of an int, divmod() and tuple
+assignment, comparisons (chained), and/or/not, truth value of an int, conditional expressions, and
+statement lists made of Assign / AugAssign / If / Return / Raise (a `raise` listed in `raises` becomes
+a sentinel value).  A function returning a tuple is translated once per component.  Anything else
+raises Unsupported; the
 generator then emits `unsupported := true` for that function so that the tie is reported as lost
 (the hand-written model + correspondence remain).
 """
@@ -25,40 +29,88 @@ CMPOPS = {ast.Eq: '==', ast.NotEq: '!=', ast.Lt: '<', ast.LtE: '≤', ast.Gt: '>
 
 
 class Tr(object):
-    def __init__(self, consts, calls=None, bool_names=()):
-        self.consts = consts          # name / 'self._x' -> python value (int or tuple of ints)
-        self.calls = calls or {}      # source text of a call -> parameter name
+    def __init__(self, consts, calls=None, bool_names=(), bools=None, raises=None, component=None,
+                 ret_bool=False, hooks=()):
+        # name / 'self._x' -> python value: int or tuple of ints (resolved constant), str (Lean text: a
+        # parameter of the definition or an already translated definition applied to parameters), or a
+        # list of str (a tuple-valued attribute, e.g. self._rect -> [r0, r1, r2, r3])
+        self.consts = consts
+        # source text of an expression (call, subscript, attribute) -> Lean text, or list of Lean texts
+        # for a tuple-valued call
+        self.calls = calls or {}
         self.bool_names = set(bool_names)
+        self.bools = bools or {}      # source text of a boolean-valued expression -> Lean Bool text
+        self.raises = raises or {}    # source text of a raise statement -> Lean text of the sentinel
+        self.component = component    # which component of a returned tuple this definition is
+        self.ret_bool = ret_bool      # the function returns a truth value
+        self.hooks = list(hooks)      # functions (tr, stmt, rest, result) -> Lean text or None
+        self.tuples = {}              # local name bound to a tuple -> list of Lean names
+        self.fresh = 0
 
     def src(self, node):
         return ast.unparse(node)
 
+    def const_int(self, n):
+        """Value of an expression that is an int literal (possibly negated), else None."""
+        if isinstance(n, ast.Constant) and isinstance(n.value, int) and not isinstance(n.value, bool):
+            return n.value
+        if isinstance(n, ast.UnaryOp) and isinstance(n.op, ast.USub):
+            v = self.const_int(n.operand)
+            return None if v is None else -v
+        return None
+
     def expr(self, n):
+        key = self.src(n)
+        if key in self.calls and isinstance(self.calls[key], str):
+            return self.calls[key]
         if isinstance(n, ast.Constant) and isinstance(n.value, int) and not isinstance(n.value, bool):
             return '(%d : Int)' % n.value
         if isinstance(n, ast.Name):
+            if n.id in self.tuples:
+                raise Unsupported('tuple %s used as a number' % n.id)
             if n.id in self.consts and isinstance(self.consts[n.id], int):
                 return '(%d : Int)' % self.consts[n.id]
+            if n.id in self.consts and isinstance(self.consts[n.id], str):
+                return self.consts[n.id]
             return n.id
         if isinstance(n, ast.Attribute):
-            key = self.src(n)
             if key in self.consts and isinstance(self.consts[key], int):
                 return '(%d : Int)' % self.consts[key]
+            if key in self.consts and isinstance(self.consts[key], str):
+                return self.consts[key]
             raise Unsupported('attribute ' + key)
         if isinstance(n, ast.Call):
-            key = self.src(n)
-            if key in self.calls:
-                return self.calls[key]
-            if isinstance(n.func, ast.Name) and n.func.id == 'abs' and len(n.args) == 1:
+            fname = n.func.id if isinstance(n.func, ast.Name) else None
+            if fname == 'abs' and len(n.args) == 1 and not n.keywords:
                 return '((Int.natAbs %s : Nat) : Int)' % self.expr(n.args[0])
+            if fname in ('min', 'max') and len(n.args) == 2 and not n.keywords:
+                return '(%s %s %s)' % (fname, self.expr(n.args[0]), self.expr(n.args[1]))
+            if fname == 'int' and len(n.args) == 1 and not n.keywords:
+                # int() of a value that is already an int in this translation
+                return self.expr(n.args[0])
             raise Unsupported('call ' + key)
         if isinstance(n, ast.Subscript):
-            key = self.src(n.value)
-            if key in self.consts and isinstance(self.consts[key], tuple):
-                tab = '[' + ', '.join('(%d : Int)' % v for v in self.consts[key]) + ']'
+            vkey = self.src(n.value)
+            if vkey in self.consts and isinstance(self.consts[vkey], tuple):
+                tab = '[' + ', '.join('(%d : Int)' % v for v in self.consts[vkey]) + ']'
                 return '(%s.getD (Int.toNat %s) 0)' % (tab, self.expr(n.slice))
+            try:
+                items = self.tuple_expr(n.value)
+            except Unsupported:
+                items = None
+            k = self.const_int(n.slice)
+            if items is not None and k is not None and -len(items) <= k < len(items):
+                return items[k]
             raise Unsupported('subscript ' + key)
         if isinstance(n, ast.BinOp):
+            if isinstance(n.op, (ast.LShift, ast.RShift)):
+                k = self.const_int(n.right)
+                if k is None or k < 0:
+                    raise Unsupported('shift by a non-constant')
+                if isinstance(n.op, ast.LShift):
+                    return '(%s * (%d : Int))' % (self.expr(n.left), 1 << k)
+                # Python >> is floor division by 2^k, also for negative numbers
+                return '(Int.fdiv %s (%d : Int))' % (self.expr(n.left), 1 << k)
             if type(n.op) not in BINOPS:
                 raise Unsupported('operator ' + type(n.op).__name__)
             return BINOPS[type(n.op)].format(self.expr(n.left), self.expr(n.right))
@@ -68,8 +120,33 @@ class Tr(object):
             return '(if %s then %s else %s)' % (self.cond(n.test), self.expr(n.body), self.expr(n.orelse))
         raise Unsupported('expression ' + self.src(n))
 
+    def tuple_expr(self, n):
+        """Tuple-valued expression -> list of Lean texts."""
+        key = self.src(n)
+        if key in self.calls and isinstance(self.calls[key], list):
+            return list(self.calls[key])
+        if key in self.consts and isinstance(self.consts[key], list):
+            return list(self.consts[key])
+        if isinstance(n, ast.Tuple):
+            return [self.expr(e) for e in n.elts]
+        if isinstance(n, ast.Name) and n.id in self.tuples:
+            return list(self.tuples[n.id])
+        if (isinstance(n, ast.Call) and isinstance(n.func, ast.Name) and n.func.id == 'divmod'
+                and len(n.args) == 2 and not n.keywords):
+            a, b = self.expr(n.args[0]), self.expr(n.args[1])
+            return ['(Int.fdiv %s %s)' % (a, b), '(Int.fmod %s %s)' % (a, b)]
+        raise Unsupported('tuple expression ' + key)
+
     def cond(self, n):
         """Boolean-valued expression as a Lean Bool."""
+        key = self.src(n)
+        if key in self.bools:
+            return self.bools[key]
+        if isinstance(n, ast.Constant) and isinstance(n.value, bool):
+            return 'true' if n.value else 'false'
+        if (isinstance(n, ast.Call) and isinstance(n.func, ast.Name) and n.func.id == 'bool'
+                and len(n.args) == 1 and not n.keywords):
+            return self.cond(n.args[0])
         if isinstance(n, ast.Compare):
             parts = []
             left = n.left
@@ -93,19 +170,48 @@ class Tr(object):
             return '(!%s)' % self.cond(n.operand)
         if isinstance(n, ast.Name) and n.id in self.bool_names:
             return n.id
-        raise Unsupported('condition ' + self.src(n))
+        if isinstance(n, ast.IfExp):
+            return '(if %s then %s else %s)' % (self.cond(n.test), self.cond(n.body), self.cond(n.orelse))
+        # truth value of an int
+        return '(decide (%s ≠ (0 : Int)))' % self.expr(n)
 
     def is_bool(self, n):
         return isinstance(n, (ast.Compare, ast.BoolOp)) or (isinstance(n, ast.UnaryOp) and isinstance(n.op, ast.Not)) \
-            or (isinstance(n, ast.Name) and n.id in self.bool_names)
+            or (isinstance(n, ast.Name) and n.id in self.bool_names) or self.src(n) in self.bools \
+            or (isinstance(n, ast.Constant) and isinstance(n.value, bool)) \
+            or (isinstance(n, ast.Call) and isinstance(n.func, ast.Name) and n.func.id == 'bool')
 
     def stmts(self, body, result):
         """Statement list -> Lean expression; `result` is the Lean text of the value if the list falls through."""
         if not body:
             return result
         s, rest = body[0], body[1:]
+        for hook in self.hooks:
+            r = hook(self, s, rest, result)
+            if r is not None:
+                return r
         if isinstance(s, ast.Return):
             return self.ret(s.value)
+        if isinstance(s, ast.Raise):
+            key = self.src(s)
+            if key in self.raises:
+                return self.raises[key]
+            raise Unsupported('raise ' + key)
+        if isinstance(s, ast.Assign) and len(s.targets) == 1 and isinstance(s.targets[0], ast.Tuple) \
+                and all(isinstance(t, ast.Name) for t in s.targets[0].elts):
+            names = [t.id for t in s.targets[0].elts]
+            vals = self.tuple_expr(s.value)
+            if len(vals) != len(names) or len(set(names)) != len(names):
+                raise Unsupported('tuple assignment ' + self.src(s))
+            # all right-hand sides are evaluated before any target is bound
+            self.fresh += 1
+            tmps = ['%s__%d' % (v, self.fresh) for v in names]
+            for v in names:
+                self.tuples.pop(v, None)
+                self.bool_names.discard(v)
+            out = ''.join('let %s : Int := %s\n  ' % (t, val) for t, val in zip(tmps, vals))
+            out += ''.join('let %s : Int := %s\n  ' % (v, t) for v, t in zip(names, tmps))
+            return out + self.stmts(rest, result)
         if isinstance(s, ast.Assign) and len(s.targets) == 1 and isinstance(s.targets[0], ast.Name):
             name = s.targets[0].id
             if self.is_bool(s.value):
@@ -119,26 +225,43 @@ class Tr(object):
             val = BINOPS[type(s.op)].format(name, self.expr(s.value))
             return 'let %s : Int := %s\n  %s' % (name, val, self.stmts(rest, result))
         if isinstance(s, ast.If):
-            returns = any(isinstance(x, ast.Return) for x in s.body + s.orelse)
-            if not returns:
-                assigned = sorted(set(self.assigned(s.body)) | set(self.assigned(s.orelse)))
+            returns = any(isinstance(x, (ast.Return, ast.Raise)) for x in ast.walk(s))
             if returns:
                 return '(if %s then %s else %s)' % (self.cond(s.test), self.stmts(s.body + rest, result),
                                                      self.stmts(s.orelse + rest, result))
-            if len(assigned) != 1:
+            assigned = sorted(set(self.assigned(s.body)) | set(self.assigned(s.orelse)))
+            if not assigned or any(v in self.bool_names or v in self.tuples for v in assigned):
                 raise Unsupported('if assigning %r' % (assigned,))
-            v = assigned[0]
-            return 'let %s : Int := (if %s then %s else %s)\n  %s' % (
-                v, self.cond(s.test), self.stmts(s.body, v), self.stmts(s.orelse, v), self.stmts(rest, result))
+            if len(assigned) == 1:
+                v = assigned[0]
+                return 'let %s : Int := (if %s then %s else %s)\n  %s' % (
+                    v, self.cond(s.test), self.stmts(s.body, v), self.stmts(s.orelse, v), self.stmts(rest, result))
+            # several variables: each new value is computed from the old environment, then all are bound
+            self.fresh += 1
+            k = self.fresh
+            test = self.cond(s.test)
+            out = ''
+            for v in assigned:
+                out += 'let %s__%d : Int := (if %s then %s else %s)\n  ' % (
+                    v, k, test, self.stmts(s.body, v), self.stmts(s.orelse, v))
+            for v in assigned:
+                out += 'let %s : Int := %s__%d\n  ' % (v, v, k)
+            return out + self.stmts(rest, result)
         if isinstance(s, ast.Expr) and isinstance(s.value, ast.Constant):
             return self.stmts(rest, result)
         raise Unsupported('statement ' + self.src(s))
 
     def ret(self, value):
-        key = self.src(value)
         # `return self.from_int(X)` -> X
         if isinstance(value, ast.Call) and self.src(value.func) == 'self.from_int' and len(value.args) == 1:
             return self.expr(value.args[0])
+        if self.component is not None:
+            items = self.tuple_expr(value)
+            if not 0 <= self.component < len(items):
+                raise Unsupported('returned tuple has no component %d' % self.component)
+            return items[self.component]
+        if self.ret_bool:
+            return self.cond(value)
         return self.expr(value)
 
     @staticmethod
